@@ -60,32 +60,20 @@ var sortSets = [...]sortSet{
 	months,
 }
 
+// ByContextualEx orders everything that is not a weekday or month name by
+// fallbackSort, then weekday names, then month names (each in calendar order,
+// any case). The order of a pair depends only on the pair, never on what was
+// compared before
 func ByContextualEx(fallbackSort NameSorter) NameSorter {
-	var set sortSet
-	fallback := false
-
 	return func(a, b string) bool {
-		if !fallback && set == nil {
-			set = inferSortSetByValue(a)
-			if set == nil {
-				fallback = true
-			}
+		setA, posA := contextualPosition(a)
+		setB, posB := contextualPosition(b)
+		if setA != setB {
+			return setA < setB
 		}
-
-		// Try using the set
-		if !fallback {
-			lowerA := strings.ToLower(a)
-			lowerB := strings.ToLower(b)
-			v0, ok0 := set[lowerA]
-			v1, ok1 := set[lowerB]
-			if !ok0 || !ok1 {
-				fallback = true
-			} else {
-				return v0 < v1
-			}
+		if posA != posB {
+			return posA < posB
 		}
-
-		// Fallback
 		return fallbackSort(a, b)
 	}
 }
@@ -94,12 +82,14 @@ func ByContextual() NameSorter {
 	return ByContextualEx(ByNameSmart)
 }
 
-func inferSortSetByValue(val string) sortSet {
+// contextualPosition returns which set val belongs to (1-based; 0 when it is
+// in none) and its position in that set
+func contextualPosition(val string) (set, pos int) {
 	val = strings.ToLower(val)
-	for _, set := range sortSets {
-		if _, ok := set[val]; ok {
-			return set
+	for i, set := range sortSets {
+		if pos, ok := set[val]; ok {
+			return i + 1, pos
 		}
 	}
-	return nil
+	return 0, 0
 }
